@@ -18,12 +18,11 @@ package util
 
 //@ fn MatchExtension(file, exts) (r)
 //@   props C09
-//@   trusted
-//@   pure
+//@   ensures [C09 extension_is_one_of_the_listed] r <==> (exists i int :: 0 <= i && i < len(exts) && exts[i] == path_ext(file))
+//@   loop 0 invariant forall i int :: 0 <= i && i <= idx ==> exts[i] != path_ext(file)
 
 //@ fn LogErr(action, err)
 //@   props C02
-//@   trusted
 //@   noeffect
 
 //@ fn FormatTime(val) (r)
@@ -80,12 +79,11 @@ package util
 //@   requires max >= 0
 //@   ensures [C06 truncation] r == ite(len(val) > max, substr(val, 0, max), val)
 
-//@ ufunc add_yaml(file string) string
+// AddYamlExtension: a name without extension gets ".yaml", ".yml" is replaced by ".yaml", anything else is kept.
+//@ sfunc add_yaml(file string) string = ite(path_ext(file) == "", file + ".yaml", ite(path_ext(file) == ".yml", trim_suffix(file, ".yml") + ".yaml", file))
 //@ fn AddYamlExtension(file) (r)
 //@   props C18
-//@   trusted
-//@   noeffect
-//@   ensures r == add_yaml(file)
+//@   ensures [C18 definition_files_end_in_yaml] r == add_yaml(file)
 
 //@ fn SplitCommand(cmdStr) (cmd, args)
 //@   props C13
